@@ -85,6 +85,7 @@ pub fn run(p: &Params, rep: &mut Report) {
         cfg.query_delete = true;
         cfg.hostile_ids = rng.chance(1, 6);
         cfg.max_anns = 14;
+        cfg.keydata_in_complex = rng.chance(1, 3);
         let mut g = Gen::new(cfg);
         let nops = rng.range(8, maxops) as usize;
         for _ in 0..nops {
